@@ -167,7 +167,7 @@ def job_list(ctx):
     # report_canonical levels / novel unspliced
     for sc in scen:
         if len(sc) <= (1 if quick else 2):
-            for rcn in ("only_canonical", "only_stranded", "all"):
+            for rcn in ("only_canonical", "only_stranded", "all", "auto"):
                 jobs.append((sc, 1, "default_ont", ("--report_canonical", rcn, "--report_novel_unspliced", "true"), 0, ctx.scratch))
     # split-locus variants at scaled constants (one gene processed in several regions)
     for sc in scen:
